@@ -2,52 +2,57 @@ import BfeVerif.C33.Model
 /-! C33 helper lemmas (core only). -/
 namespace BfeVerif.C33
 
-/-- every octet received is accounted for (first line), and the server's own counter `sc.inflow`
-    differs from the window the client was told (`65535 - sent + wu0`) by exactly the refused octets
-    and the over-declared octets it never debited (second line); it is never negative (third). -/
-def Acct (s : St) : Prop :=
-  s.sent = s.wu0 + s.held + s.rej + s.leakOD + s.leakBC + s.leakUC ∧
-  s.conn = 65535 - s.sent + s.rej + s.leakOD + s.wu0 ∧
+/-- accounting in the middle of an event: `u` octets are counted in `sent` but not yet decided
+    (debited or refused), `d` octets are debited and still have to be credited back -/
+def AcctD (s : St) (d u : Int) : Prop :=
+  s.sent = s.wu0 + s.held + s.rej + d + u ∧
+  s.conn = 65535 - s.sent + s.rej + s.wu0 + u ∧
   0 ≤ s.conn
 
-theorem closeStream_acct (s : St) (x : Stream) (h : Acct s) : Acct (closeStream s x) := by
-  unfold Acct closeStream at *
-  simp only []
-  omega
+/-- between events: every octet received is credited, still held, or was refused (first line); the
+    server's own counter `sc.inflow` is the window the client was told (`65535 - sent + wu0`) plus the
+    refused octets (second line); it is never negative (third). -/
+def Acct (s : St) : Prop := AcctD s 0 0
 
-theorem resetStream_acct (s : St) (id : Nat) (h : Acct s) : Acct (resetStream s id) := by
+theorem wuConn_acct (s : St) (n : Nat) (d u : Int) (h : AcctD s d u) :
+    AcctD (wuConn s n).2 (d - n) u := by
+  unfold wuConn AcctD at *
+  split
+  · rename_i h0; have : n = 0 := by simpa using h0
+    simp only []; omega
+  · simp only []; omega
+
+theorem closeStream_acct (s : St) (x : Stream) (d u : Int) (h : AcctD s d u) :
+    AcctD (closeStream s x).2 d u := by
+  unfold closeStream
+  simp only []
+  have := wuConn_acct { s with streams := upd s.streams { x with st := .closed, bodyErr := true, buf := 0 },
+                               held := s.held - ((if x.hasPipe then x.buf else 0 : Nat) : Int) }
+    (if x.hasPipe then x.buf else 0) (d + ((if x.hasPipe then x.buf else 0 : Nat) : Int)) u
+    (by unfold AcctD at *; simp only []; omega)
+  have e : d + ((if x.hasPipe then x.buf else 0 : Nat) : Int) - ((if x.hasPipe then x.buf else 0 : Nat) : Int) = d := by omega
+  rw [e] at this
+  exact this
+
+theorem resetStream_acct (s : St) (id : Nat) (d u : Int) (h : AcctD s d u) :
+    AcctD (resetStream s id).2 d u := by
   unfold resetStream
   split
   · split
-    · exact closeStream_acct _ _ h
+    · exact closeStream_acct _ _ d u h
     · exact h
   · exact h
 
-theorem resetStream_conn (s : St) (id : Nat) : (resetStream s id).conn = s.conn := by
+theorem wuConn_rej (s : St) (n : Nat) : (wuConn s n).2.rej = s.rej := by
+  unfold wuConn; split <;> rfl
+
+theorem resetStream_rej (s : St) (id : Nat) : (resetStream s id).2.rej = s.rej := by
   unfold resetStream
   split
-  · split <;> rfl
+  · split
+    · unfold closeStream; simp [wuConn_rej]
+    · rfl
   · rfl
-
-theorem dataClosed_acct (s : St) (id L : Nat) (sent0 : Int) (hs : s.sent = sent0 + L)
-    (h : Acct { s with sent := sent0 }) : Acct (dataClosed s id L).2 := by
-  unfold dataClosed
-  split
-  · apply resetStream_acct; unfold Acct at *; simp only [] at *; omega
-  · unfold wuConn; split
-    · rename_i h0
-      have : L = 0 := by simpa using h0
-      apply resetStream_acct; unfold Acct at *; simp only [] at *; omega
-    · apply resetStream_acct; unfold Acct at *; simp only [] at *; omega
-
-theorem dataAccept_acct (s : St) (x : Stream) (dlen L : Nat) (e : Bool) (sent0 : Int)
-    (hs : s.sent = sent0 + L) (hL : dlen ≤ L) (hav : (L : Int) ≤ s.conn)
-    (h : Acct { s with sent := sent0 }) : Acct (dataAccept s x dlen L e).2 := by
-  unfold dataAccept
-  simp only []
-  split
-  · apply resetStream_acct; unfold Acct at *; simp only [] at *; omega
-  · unfold Acct at *; simp only [] at *; omega
 
 theorem availOf_le (c n : Int) : availOf c n ≤ c ∧ availOf c n ≤ n := by
   unfold availOf; split <;> omega
@@ -55,28 +60,60 @@ theorem availOf_le (c n : Int) : availOf c n ≤ c ∧ availOf c n ≤ n := by
 theorem frameLen_ge (dlen : Nat) (pad : Option Nat) : dlen ≤ frameLen dlen pad := by
   unfold frameLen; split <;> omega
 
+theorem dataClosed_acct (s : St) (id L : Nat) (h : AcctD s 0 L) : Acct (dataClosed s id L).2 := by
+  unfold dataClosed Acct
+  split
+  · apply resetStream_acct; unfold AcctD at *; simp only [] at *; omega
+  · simp only []
+    apply resetStream_acct
+    have := wuConn_acct { s with conn := s.conn - L } L L 0 (by unfold AcctD at *; simp only [] at *; omega)
+    simpa using this
+
+theorem dataOverDeclared_acct (s : St) (id L : Nat) (h : AcctD s 0 L) :
+    Acct (dataOverDeclared s id L).2 := by
+  unfold dataOverDeclared Acct
+  split
+  · apply resetStream_acct; unfold AcctD at *; simp only [] at *; omega
+  · simp only []
+    have hr := resetStream_acct { s with conn := s.conn - L } id L 0
+      (by unfold AcctD at *; simp only [] at *; omega)
+    have := wuConn_acct _ L L 0 hr
+    simpa using this
+
+theorem dataAccept_acct (s : St) (x : Stream) (dlen L : Nat) (e : Bool)
+    (hL : dlen ≤ L) (hav : (L : Int) ≤ s.conn) (h : AcctD s 0 L) : Acct (dataAccept s x dlen L e).2 := by
+  unfold dataAccept Acct
+  simp only []
+  split
+  · apply resetStream_acct
+    have := wuConn_acct { s with conn := s.conn - L, streams := upd s.streams { x with inflow := x.inflow - L } }
+      L L 0 (by unfold AcctD at *; simp only [] at *; omega)
+    simpa using this
+  · unfold AcctD at *; simp only [] at *; omega
+
 theorem processData_acct (s : St) (id dlen : Nat) (pad : Option Nat) (e : Bool) (h : Acct s) :
     Acct (processData s id dlen pad e).2 := by
-  have hA : Acct { ({ s with sent := s.sent + (frameLen dlen pad : Int) } : St) with sent := s.sent } := h
+  have hA : AcctD { s with sent := s.sent + (frameLen dlen pad : Int) } 0 (frameLen dlen pad) := by
+    unfold Acct AcctD at *; simp only [] at *; omega
   unfold processData
   simp only []
   split
-  · exact dataClosed_acct _ id _ s.sent rfl hA
+  · exact dataClosed_acct _ id _ hA
   · split
-    · exact dataClosed_acct _ id _ s.sent rfl hA
+    · exact dataClosed_acct _ id _ hA
     · split
-      · apply resetStream_acct; unfold Acct at *; simp only [] at *; omega
+      · exact dataOverDeclared_acct _ id _ hA
       · split
         · split
-          · apply resetStream_acct; unfold Acct at *; simp only [] at *; omega
+          · unfold Acct; apply resetStream_acct; unfold AcctD at *; simp only [] at *; omega
           · rename_i x _ _ _ _ hav
-            apply dataAccept_acct _ x dlen _ e s.sent rfl (frameLen_ge dlen pad) _ hA
             have := availOf_le s.conn x.inflow
+            apply dataAccept_acct _ x dlen _ e (frameLen_ge dlen pad) _ hA
             show (frameLen dlen pad : Int) ≤ s.conn
             omega
         · rename_i hL
           have : frameLen dlen pad = 0 := by omega
-          unfold Acct at *; simp only [] at *; omega
+          unfold Acct AcctD at *; simp only [] at *; omega
 
 theorem handlerRead_acct (s : St) (id n : Nat) (h : Acct s) : Acct (handlerRead s id n).2.2 := by
   unfold handlerRead
@@ -91,7 +128,7 @@ theorem handlerRead_acct (s : St) (id n : Nat) (h : Acct s) : Acct (handlerRead 
         · simp only []
           split
           · exact h
-          · split <;> (unfold Acct at *; simp only [] at *; omega)
+          · split <;> (unfold Acct AcctD at *; simp only [] at *; omega)
 
 theorem handlerClose_acct (s : St) (id : Nat) (h : Acct s) : Acct (handlerClose s id).2.2 := by
   unfold handlerClose
@@ -104,8 +141,8 @@ theorem handlerClose_acct (s : St) (id : Nat) (h : Acct s) : Acct (handlerClose 
 theorem exitClose_acct (s : St) (x : Stream) (h : Acct s) : Acct (exitClose s x).2 := by
   unfold exitClose
   split
-  · exact closeStream_acct _ _ h
-  · exact closeStream_acct _ _ h
+  · exact closeStream_acct _ _ 0 0 h
+  · exact closeStream_acct _ _ 0 0 h
   · exact h
 
 theorem handlerExit_acct (s : St) (id : Nat) (h : Acct s) : Acct (handlerExit s id).2.2 := by
@@ -120,13 +157,13 @@ theorem handlerExit_acct (s : St) (id : Nat) (h : Acct s) : Acct (handlerExit s 
       generalize exitClose s x = r at h1 ⊢
       split
       · exact h1
-      · unfold Acct at *; simp only [] at *; omega
+      · exact h1
 
 theorem processRst_acct (s : St) (id : Nat) (h : Acct s) : Acct (processRst s id).2 := by
   unfold processRst
   split
   · exact h
-  · exact resetStream_acct _ _ h
+  · exact resetStream_acct _ _ 0 0 h
 
 theorem processHeaders_acct (s : St) (id : Nat) (d : Int) (e : Bool) (h : Acct s) :
     Acct (processHeaders s id d e).2 := by
@@ -135,7 +172,7 @@ theorem processHeaders_acct (s : St) (id : Nat) (d : Int) (e : Bool) (h : Acct s
   · exact h
   · split
     · split
-      · exact resetStream_acct _ _ h
+      · exact resetStream_acct _ _ 0 0 h
       · exact h
     · split
       · exact h
@@ -161,6 +198,6 @@ theorem run_acct (evs : List Ev) : ∀ s, Acct s → Acct (runEvs s evs) := by
     · exact ih _ (step_acct s e h)
 
 theorem init_acct (isw : Nat) : Acct { isw := isw } := by
-  unfold Acct; simp
+  unfold Acct AcctD; simp
 
 end BfeVerif.C33
